@@ -128,7 +128,7 @@ static void print_val(const rtosc_arg_val_t *c, std::string &o, bool *null_strin
 int main()
 {
     std::string line;
-    static char msgbuf[1 << 16];
+    static char msgbuf[1024];
     while(std::getline(std::cin, line)) {
         auto f = split(line, ' ');
         std::string o;
@@ -179,8 +179,11 @@ int main()
                 if(null_string) o += "ERR";     // rtosc_amessage dereferences the string
                 else if(V.n == 0) o += "-";     // zero-length VLA in rtosc_avmessage: not called
                 else {
+                    memset(msgbuf, 0xaa, sizeof msgbuf);
                     size_t len = rtosc_avmessage(msgbuf, sizeof msgbuf, addr.c_str(), V.n, V.p);
                     o += len ? hex(msgbuf, len) : "ERR";
+                    for(size_t k = len; len && k < sizeof msgbuf; ++k)   // the destination behind the message
+                        if((unsigned char)msgbuf[k] != 0xaa) { o += "TAIL"; break; }
                 }
             }
         } else { puts("BADCASE"); continue; }
